@@ -136,9 +136,9 @@ def sweep_jobs(tier):
     return jobs
 
 
-def run_sweeps(harness, tier):
+def run_sweeps(harness, tier, skip=()):
     """returns (stats, list of (sweep args, block idx) that differ, errors)"""
-    jobs = sweep_jobs(tier)
+    jobs = [j for j in sweep_jobs(tier) if j[0][0] not in skip]
     hcache = {}
 
     def harness_blocks(args):
@@ -225,6 +225,15 @@ def run(tier, seed):
         notes.append('func_integer.inl differs from the text the model was written against (sha256 %s…): random budget raised' % fp[:12])
     budget = 'thorough' if tier == 'thorough' else ('medium' if fp_changed else 'quick')
     harness, herr = build_harness(CXX, 'main')
+    narrow_missing = False
+    if herr:
+        # without fix_bitfieldReverse / fix_bitfieldInsert the 8/16-bit instances of these two functions are ill-formed:
+        # leave them out (reported below) so that everything else is still compared
+        h2, herr2 = build_harness(CXX + ['-DC05_NO_NARROW'], 'nonarrow')
+        if h2:
+            unexplained.append('glm::bitfieldReverse / glm::bitfieldInsert do not compile for 8- and 16-bit element types on this tree '
+                               '(static_assert admits every integer type; fix_bitfieldReverse.diff / fix_bitfieldInsert.diff): ' + herr[-400:])
+            harness, herr, narrow_missing = h2, None, True
     corr, sweep_stats, samples = None, None, []
     diffs = []
     if herr:
@@ -272,7 +281,7 @@ def run(tier, seed):
                     try: os.remove(alt_path)
                     except OSError: pass
         # sweeps
-        sweep_stats, differing, serr = run_sweeps(harness, tier)
+        sweep_stats, differing, serr = run_sweeps(harness, tier, skip=('ins8',) if narrow_missing else ())
         unexplained += serr
         log('correspondence (sweeps):', {k: v for k, v in sweep_stats.items() if k != 'sweeps'}, 'differing blocks:', len(differing))
         if sweep_stats['model_spec_diff']:
@@ -324,6 +333,7 @@ def run(tier, seed):
                        argument_meaning='unary: a0 = value; bitfieldExtract: value, offset, bits; bitfieldInsert: base, insert, offset, bits; carry functions: x, y; results r0,r1 = value / (result,carry|borrow) / (msb,lsb); raw two\'s-complement bits',
                        replay='g++ -std=c++17 -O1 -w -I%s %s -o /tmp/c05h && /tmp/c05h one %s s %s %s' % (REPO, SRC, v['fn'], v['ty'], ' '.join(str(a) for a in v['args'])))
         if v.get('config'): payload['configuration'] = v['config']
+        if unexplained: payload['other_items'] = unexplained[:10]
         lines_out.append('VIOLATION property=%s replay=%s' % (PROP, write_replay(PROP, payload)))
     if stale and not violations:
         e = stale[0]
